@@ -2358,20 +2358,13 @@ impl Ord for Element {
 
         // sort by item name if present
         if let (Some(name1), Some(name2)) = (self.item_name(), other.item_name()) {
-            // both items have a name - try to decompose the name into a base and an index
+            // both items have a name - decompose each name into a base and an index
             // this allows for a more natural sorting of indexed items (e.g. "item2" < "item10")
-            if let (Some((base1, idx1)), Some((base2, idx2))) =
-                (decompose_item_name(&name1), decompose_item_name(&name2))
-            {
-                if base1 == base2 {
-                    let result = idx1.cmp(&idx2);
-                    if result != Ordering::Equal {
-                        return result;
-                    }
-                }
-            }
-            // if the decomposition fails, then just compare the full item names
-            let result = name1.cmp(&name2);
+            // a name without a numeric suffix is its own base; (base, index, full name) are compared in this order,
+            // which is a total order ("a2" < "a10" < "a1b"; comparing only some pairs numerically made it cyclic)
+            let (base1, idx1) = decompose_item_name(&name1).map_or((name1.clone(), None), |(b, i)| (b, Some(i)));
+            let (base2, idx2) = decompose_item_name(&name2).map_or((name2.clone(), None), |(b, i)| (b, Some(i)));
+            let result = base1.cmp(&base2).then(idx1.cmp(&idx2)).then(name1.cmp(&name2));
             if result != Ordering::Equal {
                 return result;
             }
